@@ -105,7 +105,7 @@ pub fn build(src: &mut Src) -> Result<Option<Setup>, Failure> {
             output: outs,
         };
         let (_, olders) = gen::locks_of(&d.nodes());
-        let seq = if olders.is_empty() || src.chance(1, 3) { *src.pick(&[0xffff_fffeu32, 0xffff_fffd, 0]) } else { olders.iter().copied().max().unwrap() };
+        let seq = if olders.is_empty() || src.chance(1, 3) { *src.pick(&[0xffff_fffeu32, 0xffff_fffd, 0, 0xffff_ffff, 0xffff_fffe]) } else { olders.iter().copied().max().unwrap() };
         inputs.push(TxIn { previous_output: OutPoint { txid: prev.compute_txid(), vout: vout as u32 }, script_sig: ScriptBuf::new(), sequence: Sequence(seq), witness: Witness::new() });
         prevouts.push(prev.output[vout].clone());
         prev_txs.push(prev);
@@ -329,9 +329,33 @@ fn check_plan_update(p: &Psbt, s: &Setup, i: usize) -> Result<(), Failure> {
     }
     // ... and if the PSBT finalizer accepts the plan-updated input (it need not: the plan records
     // only what signers need), the result is valid too
+    // When every key the plan pushes is one that also signs, the signers' data (signatures,
+    // origins recorded for signing keys) names every key the finalizer needs: it must succeed too.
+    let all_pushed_keys_sign = {
+        use miniscript::miniscript::satisfy::Placeholder;
+        use miniscript::ToPublicKey;
+        let t = plan.witness_template();
+        let signing: Vec<Vec<u8>> = t
+            .iter()
+            .filter_map(|p| match p {
+                Placeholder::EcdsaSigPk(pk) => Some(pk.to_public_key().to_bytes()),
+                Placeholder::SchnorrSigPk(pk, _, _) => Some(pk.to_x_only_pubkey().serialize().to_vec()),
+                _ => None,
+            })
+            .collect();
+        t.iter().all(|p| match p {
+            Placeholder::Pubkey(pk, _) => signing.contains(&pk.to_public_key().to_bytes()) || signing.contains(&pk.to_x_only_pubkey().serialize().to_vec()),
+            Placeholder::PubkeyHash(..) | Placeholder::EcdsaSigPkHash(..) | Placeholder::SchnorrSigPkHash(..) => false,
+            _ => true,
+        })
+    };
     let secp = Secp256k1::verification_only();
     match guard("finalize_inp", || q.finalize_inp_mut(&secp, i))? {
         Ok(()) => check_final_valid(&q, s, i),
+        Err(e) if all_pushed_keys_sign => fail(
+            &format!("plan-updated-input-does-not-finalize/{}", kind),
+            format!("input {} ({}): updated through into_plan + Plan::update_psbt_input, every signature and preimage added, every key the plan pushes also signs -- the plan completes from the PSBT but finalize_inp_mut fails: {:?}", i, d.print(true), e),
+        ),
         Err(_) => Ok(()),
     }
 }
